@@ -291,8 +291,15 @@ def funnel_rejects_none(C, b, name):
     for p, tt in ups:
         okk = False
         taint = forward_taint(b, {tt['dst']['l']}, through_refs=False)
+        # `upgrade().map(Some).ok_or(ItemDeleted)`: adaptors that keep None keep the obligation
+        grew = True
+        while grew:
+            grew = False
+            for p3, t3 in b.iter_calls():
+                if call_matches(t3, r'Option::<T>::(map|and_then|filter|cloned|copied|inspect)$') and t3['args'] and is_local_op(t3['args'][0]) and t3['args'][0]['l'] in taint and t3['dst']['l'] not in taint:
+                    taint |= forward_taint(b, {t3['dst']['l']}, through_refs=False); grew = True
         for p2, t2 in b.iter_calls():
-            if call_matches(t2, r'Option::<.*>::ok_or$|Option::<T>::ok_or$') and any(is_local_op(a) and a['l'] in taint for a in t2['args']):
+            if call_matches(t2, r'Option::<.*>::ok_or$|Option::<T>::(ok_or|ok_or_else)$') and any(is_local_op(a) and a['l'] in taint for a in t2['args']):
                 okk = True
         C.check(okk, 'C03-MUST-funnel', '%s|upgrade-failure-is-Err' % name, 'a failed upgrade of the parent link is not turned into an error in %s' % name, b.where(p))
 
